@@ -1,7 +1,8 @@
 //! C09 — glyph outlines written to glyf/loca are the outlines read and drawn back.
 //! Correspondence: write-fonts glyph writer / read-fonts glyph reader / loca vs Model/Glyf.lean.
 //! Oracles (model independent): write -> read round trips (points, flags, end points, bbox,
-//! instructions, components), canonical-shortest length, GlyfLocaBuilder + get_glyf, BezPath ->
+//! instructions, components), canonical-shortest length, GlyfLocaBuilder + get_glyf (incl. builder HISTORIES in
+//! which add_glyph rejects glyphs in the middle and the caller carries on), BezPath ->
 //! glyph -> font -> skrifa draw (segments up to rotation for arbitrary paths; the exact move / line / quad / close
 //! sequence for closed integer paths whose on-curve joins sit on or next to the midpoint of their control points).
 use font_types::{F2Dot14, GlyphId, GlyphId16};
@@ -1365,6 +1366,297 @@ fn exact_draw_case(s: &mut Session, path: &kurbo::BezPath) {
     );
 }
 
+// ---------------------------------------------------------------- builder histories with failures in the middle
+
+/// a composite glyph WITHOUT components (validation must reject it): only obtainable by reading the 10 header
+/// bytes of a composite glyph that has no component records
+fn empty_composite(bbox: [i16; 4]) -> Option<CompositeGlyph> {
+    let mut bytes = vec![0xff, 0xff];
+    for v in bbox {
+        bytes.extend_from_slice(&v.to_be_bytes());
+    }
+    let rg = rglyf::CompositeGlyph::read(FontData::new(&bytes)).ok()?;
+    let cg = CompositeGlyph::from_table_ref(&rg);
+    (cg.components().len() == 0).then_some(cg)
+}
+
+fn g_real_any(g: &G) -> Option<Glyph> {
+    match g {
+        G::C(c) if c.comps.is_empty() => Some(Glyph::Composite(empty_composite(c.bbox)?)),
+        _ => g_real(g),
+    }
+}
+
+/// what `validate` has to reject (stated from the format, not from the implementation): more points than the u16
+/// end-point indices can address, more instruction bytes than the u16 length field, a composite without components
+fn must_reject(g: &G) -> Option<&'static str> {
+    match g {
+        G::E => None,
+        G::S(sg) => {
+            if sg.instr.len() > 65535 {
+                Some("instructions")
+            } else if sg.contours.iter().map(|c| c.len()).sum::<usize>() > 65535 {
+                Some("points")
+            } else {
+                None
+            }
+        }
+        G::C(c) => c.comps.is_empty().then_some("no-components"),
+    }
+}
+
+/// One `add_glyph` call of a history: the glyph, how it is described in a failure report, whether it is handed to
+/// the builder as the inner `SimpleGlyph` / `CompositeGlyph` (all three types implement `SomeGlyph`).
+#[derive(Clone)]
+struct HStep {
+    g: G,
+    label: String,
+    direct: bool,
+}
+
+fn hstep(rng: &mut Rng, g: G, label: Option<String>) -> HStep {
+    let label = label.unwrap_or_else(|| g_spec(&g));
+    HStep { g, label, direct: rng.chance(1, 3) }
+}
+
+/// `n` points in `k` contours: point i = (i % 1000, i % 7, on-curve iff i % 5 != 0)
+fn many_points(n: usize, k: usize) -> SG {
+    let pts: Vec<(i16, i16, bool)> = (0..n).map(|i| ((i % 1000) as i16, (i % 7) as i16, i % 5 != 0)).collect();
+    let per = n.div_ceil(k.max(1)).max(1);
+    SG { bbox: [0, 0, 999, 6], instr: vec![], contours: pts.chunks(per).map(|c| c.to_vec()).collect() }
+}
+
+/// an invalid glyph of every kind validation knows (and sizes right at / beyond the limits)
+fn gen_invalid(rng: &mut Rng, cheap: bool) -> (G, String) {
+    match rng.below(if cheap { 3 } else { 8 }) {
+        0..=2 => {
+            let bbox = gen_bbox(rng);
+            (G::C(CG { bbox, comps: vec![], instr: vec![] }), format!("C{{no components, bbox {bbox:?}}}"))
+        }
+        3 | 4 => {
+            let l = *rng.pick(&[65536usize, 65537, 70000]);
+            let with_contours = rng.chance(2, 3);
+            let g = SG { bbox: [0; 4], instr: vec![7; l], contours: if with_contours { vec![vec![(1, 1, true)]] } else { vec![] } };
+            (G::S(g), format!("S{{{l} instruction bytes 07, {}}}", if with_contours { "one point (1,1,on)" } else { "no contours" }))
+        }
+        _ => {
+            let n = *rng.pick(&[65536usize, 65537, 65537, 65538, 70000, 131073]);
+            let k = *rng.pick(&[1usize, 2, 2, 3, 7]);
+            (G::S(many_points(n, k)), format!("S{{{n} points in {k} contours: point i = (i%1000, i%7, on iff i%5!=0), bbox [0,0,999,6]}}"))
+        }
+    }
+}
+
+/// a valid glyph whose `write_into` cannot panic: no empty contours, deltas far from the i16 limits
+fn gen_tame(rng: &mut Rng) -> G {
+    match rng.below(6) {
+        0 => G::E,
+        1 => G::C(gen_composite(rng)),
+        _ => {
+            let mut g = gen_simple_random(rng, 8);
+            g.contours.retain(|c| !c.is_empty());
+            for c in g.contours.iter_mut() {
+                for p in c.iter_mut() {
+                    p.0 = p.0.clamp(-16000, 16000);
+                    p.1 = p.1.clamp(-16000, 16000);
+                }
+            }
+            G::S(g)
+        }
+    }
+}
+
+/// a history: valid glyphs, `Glyph::Empty`, rejected glyphs at the start / in the middle / at the end / in a row,
+/// after some of which the caller adds a replacement (an empty glyph, or a small valid one)
+fn gen_history(rng: &mut Rng, s: &mut Session, cheap_invalid: bool, tame: bool) -> Vec<HStep> {
+    let n = 1 + rng.below(7) as usize;
+    let p_bad = *rng.pick(&[1u64, 2, 3, 5]);
+    let mut steps = vec![];
+    for _ in 0..n {
+        if rng.below(6) < p_bad {
+            let (g, label) = gen_invalid(rng, cheap_invalid);
+            steps.push(hstep(rng, g, Some(label)));
+            if rng.chance(1, 2) {
+                s.count("hist.after-err:replacement-added");
+                let g = if rng.chance(1, 2) { G::E } else { G::S(SG { bbox: [0, 0, 10, 10], instr: vec![], contours: vec![vec![(0, 0, true), (10, 0, true), (10, 10, true)]] }) };
+                let label = format!("(replacement) {}", g_spec(&g));
+                steps.push(hstep(rng, g, Some(label)));
+            } else {
+                s.count("hist.after-err:carries-on");
+            }
+        } else {
+            let g = if tame { gen_tame(rng) } else {
+                match rng.below(5) {
+                    0 => G::E,
+                    1 => G::C(gen_composite(rng)),
+                    _ => G::S(gen_simple_random(rng, 8)),
+                }
+            };
+            steps.push(hstep(rng, g, None));
+        }
+    }
+    steps
+}
+
+struct HistRun {
+    /// one char per call: o = Ok, e = Err, t = panic (the history stops there)
+    outcomes: String,
+    /// indices of the steps that were accepted
+    accepted: Vec<usize>,
+    /// (glyf bytes, loca bytes, long format) unless a call panicked
+    built: Option<(Vec<u8>, Vec<u8>, bool)>,
+}
+
+/// drive the REAL builder through the history, carrying on after every `Err`
+fn run_history(reals: &[Glyph], steps: &[HStep]) -> HistRun {
+    let mut b = GlyfLocaBuilder::new();
+    let mut outcomes = String::new();
+    let mut accepted = vec![];
+    for (k, st) in steps.iter().enumerate() {
+        let r = catch(|| match (&reals[k], st.direct) {
+            (Glyph::Simple(x), true) => b.add_glyph(x).is_ok(),
+            (Glyph::Composite(x), true) => b.add_glyph(x).is_ok(),
+            (g, _) => b.add_glyph(g).is_ok(),
+        });
+        match r {
+            Ok(true) => {
+                outcomes.push('o');
+                accepted.push(k);
+            }
+            Ok(false) => outcomes.push('e'),
+            Err(_) => {
+                outcomes.push('t');
+                return HistRun { outcomes, accepted, built: None };
+            }
+        }
+    }
+    let built = catch(|| {
+        let (glyf, loca, fmt) = b.build();
+        Some((write_fonts::dump_table(&glyf).ok()?, write_fonts::dump_table(&loca).ok()?, fmt == LocaFormat::Long))
+    })
+    .ok()
+    .flatten();
+    HistRun { outcomes, accepted, built }
+}
+
+fn history_label(steps: &[HStep]) -> String {
+    let t: Vec<String> = steps.iter().enumerate().map(|(k, st)| format!("[{k}{}] {}", if st.direct { " inner type" } else { "" }, st.label)).collect();
+    format!("GlyfLocaBuilder::new(), then add_glyph of (every Err ignored): {}", t.join(" ; ")).chars().take(6000).collect()
+}
+
+/// Oracle on the real code alone. After ANY history the built tables describe exactly the accepted glyphs.
+fn history_oracles(s: &mut Session, steps: &[HStep], must_complete: bool) -> Option<HistRun> {
+    let reals: Option<Vec<Glyph>> = steps.iter().map(|st| g_real_any(&st.g)).collect();
+    let reals = reals?;
+    let run = run_history(&reals, steps);
+    let label = history_label(steps);
+    // call by call: Err exactly for what validation has to reject; a rejected glyph must not panic instead
+    for (k, o) in run.outcomes.chars().enumerate() {
+        let why = must_reject(&steps[k].g);
+        s.count(&format!("hist.step:{}", match (o, why) { ('o', _) => "ok".to_string(), ('e', Some(w)) => format!("err:{w}"), ('e', None) => "err:?".to_string(), _ => "panic".to_string() }));
+        let ok = match o {
+            'o' => why.is_none(),
+            'e' => why.is_some(),
+            _ => why.is_none() && !must_complete,
+        };
+        s.oracle(
+            "history:add_glyph-is-Err-iff-the-glyph-must-be-rejected",
+            ok,
+            || label.clone(),
+            || format!("call [{k}] returned {} but {}; outcomes so far {}", match o { 'o' => "Ok", 'e' => "Err", _ => "a panic" }, match why { Some(w) => format!("the glyph must be rejected ({w})"), None => "the glyph is valid".to_string() }, run.outcomes),
+        );
+    }
+    let Some((glyf_bytes, loca_bytes, is_long)) = run.built.clone() else {
+        s.count("hist:stopped-by-panic");
+        return Some(run);
+    };
+    s.count(if is_long { "hist.format:long" } else { "hist.format:short" });
+    let rejected_positions: Vec<usize> = run.outcomes.chars().enumerate().filter(|(_, o)| *o == 'e').map(|(k, _)| k).collect();
+    if let (Some(first), Some(last)) = (rejected_positions.first(), rejected_positions.last()) {
+        s.count(if *first == 0 { "hist.rejected:first-call" } else { "hist.rejected:later-call" });
+        if *last + 1 == steps.len() {
+            s.count("hist.rejected:last-call");
+        }
+        if rejected_positions.windows(2).any(|w| w[1] == w[0] + 1) {
+            s.count("hist.rejected:two-in-a-row");
+        }
+    } else {
+        s.count("hist.rejected:none");
+    }
+    let own: Vec<Vec<u8>> = run.accepted.iter().map(|&k| write_fonts::dump_table(&reals[k]).unwrap_or_default()).collect();
+    let want_glyf: Vec<u8> = own.iter().flatten().copied().collect();
+    let ctx = |what: String| format!("{what}; outcomes {} (accepted calls {:?})", run.outcomes, run.accepted);
+    s.oracle(
+        "history:glyf=concatenation-of-the-accepted-glyphs(rejected-occupy-no-bytes)",
+        glyf_bytes == want_glyf,
+        || label.clone(),
+        || ctx(format!("glyf has {} bytes, the accepted glyphs' own bytes are {} ({:?}); {}", glyf_bytes.len(), want_glyf.len(), own.iter().map(|o| o.len()).collect::<Vec<_>>(), first_diff_bytes(&glyf_bytes, &want_glyf))),
+    );
+    s.oracle(
+        "history:loca-short-iff-glyf<0x20000",
+        is_long == (glyf_bytes.len() >= 0x20000),
+        || label.clone(),
+        || ctx(format!("glyf len {} long={is_long}", glyf_bytes.len())),
+    );
+    let parsed = (rglyf::Glyf::read(FontData::new(&glyf_bytes)), read_fonts::tables::loca::Loca::read(FontData::new(&loca_bytes), is_long));
+    let (Ok(rglyf_t), Ok(rloca)) = parsed else {
+        s.oracle("history:built-tables-parse", false, || label.clone(), || "Glyf/Loca::read failed".into());
+        return Some(run);
+    };
+    s.oracle(
+        "history:loca-has-accepted+1-entries",
+        rloca.len() == run.accepted.len() && loca_bytes.len() == (run.accepted.len() + 1) * if is_long { 4 } else { 2 },
+        || label.clone(),
+        || ctx(format!("loca describes {} glyphs in {} bytes", rloca.len(), loca_bytes.len())),
+    );
+    let base = glyf_bytes.as_ptr() as usize;
+    let mut pos = 0usize;
+    for (i, &k) in run.accepted.iter().enumerate() {
+        let got = catch(|| rloca.get_glyf(GlyphId::new(i as u32), &rglyf_t));
+        let (ok, what) = match &got {
+            Ok(Ok(None)) => (own[i].is_empty(), "no outline".to_string()),
+            Ok(Ok(Some(g))) => {
+                let d = g.offset_data();
+                let same_bytes = d.as_bytes() == own[i].as_slice();
+                let at = d.as_bytes().as_ptr() as usize - base;
+                let same_glyph = same_bytes && Glyph::from_table_ref(g) == reals[k];
+                (same_bytes && at == pos && same_glyph, format!("{} bytes at {at}{}", d.len(), if same_bytes { "" } else { " (different bytes)" }))
+            }
+            Ok(Err(e)) => (false, format!("error {e}")),
+            Err(p) => (false, format!("panic {p}")),
+        };
+        s.oracle(
+            "history:get_glyf(i)=i-th-accepted-glyph",
+            ok,
+            || label.clone(),
+            || ctx(format!("glyph id {i} (call [{k}], own bytes: {} at {pos}) reads back as: {what}", own[i].len())),
+        );
+        pos += own[i].len();
+    }
+    // one past the last accepted glyph: no such glyph
+    let beyond = catch(|| matches!(rloca.get_glyf(GlyphId::new(run.accepted.len() as u32), &rglyf_t), Ok(Some(_))));
+    s.oracle("history:no-glyph-beyond-the-accepted-ones", beyond == Ok(false), || label.clone(), || ctx("get_glyf(accepted) returned a glyph".into()));
+    Some(run)
+}
+
+fn first_diff_bytes(a: &[u8], b: &[u8]) -> String {
+    match a.iter().zip(b.iter()).position(|(x, y)| x != y) {
+        Some(i) => format!("first differing byte at {i}"),
+        None => format!("one is a prefix of the other ({} / {} bytes)", a.len(), b.len()),
+    }
+}
+
+/// correspondence of the same history with `buildHist` (Model/Glyf.lean): outcomes call by call, then the tables
+fn history_case(s: &mut Session, steps: &[HStep]) {
+    let Some(run) = history_oracles(s, steps, false) else { return };
+    let spec: Vec<String> = steps.iter().map(|st| g_spec(&st.g)).collect();
+    let resp = match &run.built {
+        None => format!("{} | trap", run.outcomes),
+        Some((glyf, loca, long)) => format!("{} | {} {} {}", run.outcomes, if *long { "L" } else { "S" }, hex(loca), hex(glyf)),
+    };
+    s.case("build.hist", format!("hist {}", spec.join(" ")), resp);
+}
+
 // ---------------------------------------------------------------- reader fuzz
 
 fn mutate(rng: &mut Rng, bytes: &[u8]) -> Vec<u8> {
@@ -1752,6 +2044,79 @@ fn run(cfg: &Config, s: &mut Session) {
     ] {
         path_case(s, &kurbo::BezPath::from_svg(svg).unwrap());
         draw_case(s, &kurbo::BezPath::from_svg(svg).unwrap());
+    }
+    // --- builder histories with failures in the middle (the caller carries on after every Err)
+    {
+        // every kind of rejected glyph first / in the middle / last, followed by an empty glyph, a glyph, nothing
+        let tri = G::S(SG { bbox: [0, 0, 10, 10], instr: vec![1, 2], contours: vec![vec![(0, 0, true), (10, 0, true), (5, 10, false)]] });
+        let bad: Vec<(G, String)> = vec![
+            (G::C(CG { bbox: [1, 2, 3, 4], comps: vec![], instr: vec![] }), "C{no components, bbox [1,2,3,4]}".into()),
+            (G::S(many_points(65537, 2)), "S{65537 points in 2 contours: point i = (i%1000, i%7, on iff i%5!=0), bbox [0,0,999,6]}".into()),
+            (G::S(SG { bbox: [0; 4], instr: vec![7; 65536], contours: vec![vec![(1, 1, true)]] }), "S{65536 instruction bytes 07, one point (1,1,on)}".into()),
+        ];
+        for (bi, (b, bl)) in bad.iter().enumerate() {
+            let shapes: Vec<Vec<usize>> = vec![vec![9, 0], vec![9, 1], vec![1, 9, 1], vec![0, 9, 0], vec![1, 9], vec![9, 9, 1, 9, 0, 1], vec![9]];
+            for shape in shapes {
+                let steps: Vec<HStep> = shape
+                    .iter()
+                    .map(|&k| match k {
+                        0 => hstep(&mut rng, G::E, None),
+                        1 => hstep(&mut rng, tri.clone(), None),
+                        _ => hstep(&mut rng, b.clone(), Some(bl.clone())),
+                    })
+                    .collect();
+                // the model sees the cheap kind in every shape, the two big kinds once each
+                if bi == 0 || shape.len() == 3 {
+                    history_case(s, &steps);
+                } else {
+                    history_oracles(s, &steps, true);
+                }
+            }
+        }
+    }
+    for _ in 0..150 * scale {
+        let steps = gen_history(&mut rng, s, true, false);
+        history_case(s, &steps);
+    }
+    for _ in 0..(if t { 600 } else { 60 }) {
+        let steps = gen_history(&mut rng, s, false, true);
+        history_oracles(s, &steps, true);
+    }
+    // both loca formats: totals on both sides of the 128 KiB short/long boundary, rejected glyphs in between
+    for &total in &[0x1fffcusize, 0x1fffe, 0x20000, 0x20002, 0x20004, 0x30000] {
+        for variant in 0..(if t { 6 } else { 2 }) {
+            let mut steps: Vec<HStep> = vec![];
+            let mut used = 0usize;
+            let filler = |rng: &mut Rng, size: usize| hstep(rng, G::S(simple_of_size(size)), Some(format!("S{{filler: one point (0,0,on), {} instruction bytes 4f => {} bytes}}", (size & !1usize).max(16) - 15, (size & !1usize).max(16))));
+            steps.push(filler(&mut rng, 0x10000));
+            used += 0x10000;
+            for _ in 0..3 + variant {
+                if rng.chance(1, 2) {
+                    let (g, label) = gen_invalid(&mut rng, variant % 2 == 0);
+                    steps.push(hstep(&mut rng, g, Some(label)));
+                }
+                let g = gen_tame(&mut rng);
+                if let Some(real) = g_real(&g) {
+                    if let Ok(b) = write_fonts::dump_table(&real) {
+                        used += b.len();
+                        steps.push(hstep(&mut rng, g, None));
+                    }
+                }
+            }
+            let (g, label) = gen_invalid(&mut rng, false);
+            steps.push(hstep(&mut rng, g, Some(label)));
+            let mut rest = total - used;
+            while rest > 0xfff0 {
+                steps.push(filler(&mut rng, 0xf000));
+                rest -= 0xf000;
+            }
+            steps.push(filler(&mut rng, rest));
+            if rng.chance(1, 2) {
+                let (g, label) = gen_invalid(&mut rng, true);
+                steps.push(hstep(&mut rng, g, Some(label)));
+            }
+            history_oracles(s, &steps, true);
+        }
     }
     // --- implied-point decisions: joins on / next to the midpoint of their control points must redraw exactly
     {
